@@ -3,6 +3,7 @@ import common
 import lrcommon
 from props import c01_desugar
 from props import c01_genmodel
+from props import c01_emit
 
 LEVEL = "proof"
 
@@ -13,6 +14,7 @@ def run(r):
     lrcommon.run_lr(r, "C01", also=('C09',))
     c01_desugar.run_desugar(r)
     c01_genmodel.run_genmodel(r, props=("C01",))
+    c01_emit.run_emit(r, "C01")
     r.assumptions += [
         "per generated grammar the theorem quantifies over all token sequences; the space of grammars is sampled by the generator",
         "the item-set certificate and the grammar come from an in-process run of the real front end + ConstructLALR; the arrays from the file the real generator wrote",
